@@ -385,7 +385,8 @@ Step(s, m) ==
         /\ hist' = IF EmitDepth > 0 THEN Append(hist, t.obs) ELSE hist
         /\ fired' = fired \cup t.obs.tags
 
-\* named actions (one per client operation)
+\* the client operations by name (Next below is their union: it quantifies over Offered(s) once, which is much
+\* cheaper for TLC than eight disjuncts each rebuilding the set; the trace specification calls Transition directly)
 Begin(s) == Step(s, St("begin", 0, "", ""))
 Commit(s) == sess[s].st = "tx" /\ Step(s, St("commit", 0, "", ""))
 Rollback(s) == sess[s].st = "tx" /\ Step(s, St("rollback", 0, "", ""))
